@@ -264,4 +264,206 @@ Proof.
       eapply rs_lazybranchcount_back_fail; try exact tc_nonneg; eassumption.
 Qed.
 
+(* ---------- assembling the loop: prelude, (Goto), body, test ---------- *)
+Lemma cc_loop_core f r lazy limit cntd m a lbody ltest exit tbl :
+  ok_node f r -> supported r = true -> has_code lbody (fst (emit cfg0 r lbody tbl)) ->
+  ltest = lbody + csize cfg0 r -> code_ex ltest -> code_at p a <> None ->
+  (forall fi, iter_ok_at f r lazy limit cntd ltest exit fi) ->
+  side limit cntd (if m =? 0 then 0 else 1 - m) f ->
+  (m = 0 -> forall t T S C M, rsteps (mkr a 0 t T S C M) (mkr ltest 0 t (a :: T) (stk cntd (-1) 0 ++ S) C M)) ->
+  (m <> 0 -> forall t T S C M, rsteps (mkr a 0 t T S C M) (mkr lbody 0 t (a :: T) (stk cntd t (1 - m) ++ S) C M)) ->
+  (forall t np T' mk ct tt S C M w3, code_at p (Z.abs np) = Some w3 ->
+     rsteps (mkr a BackBit t (np :: T') (stkf cntd lazy mk ct tt ++ S) C M) (bkr np t T' S C M)) ->
+  forall s res,
+    (if m =? 0 then iter f (sem e f r) lazy limit s (-1) 0
+     else bindr (sem e f r s) (fun s' => iter f (sem e f r) lazy limit s' (pos s) (1 - m))) = Ok res ->
+    st_ok e s ->
+    forall T S C M, track_ok T -> caps_rel (caps s) M ->
+      leadsg exit T S S C M (mkr a 0 (pos s) T S C M) res.
+Proof.
+  intros Hr_ok Hsr Hcb Hlt Hext Ha Hiter Hside Hpre0 Hpre1 Hback s res Hsem Hst T S C M Hk Hr.
+  assert (Ha0 : 0 <= a).
+  { destruct (code_at p a) as [w|] eqn:E; [|congruence]. eapply code_at_nonneg. exact E. }
+  assert (Hka : track_ok (a :: T)).
+  { destruct (code_at p a) as [w|] eqn:E; [|congruence]. eapply track_ok_cons. rewrite Z.abs_eq by lia. exact E. }
+  pose proof Hk as (np' & T3 & HT3 & w3 & Hw3).
+  rewrite <- (app_nil_r res).
+  destruct (m =? 0) eqn:Em.
+  - apply Z.eqb_eq in Em. eapply leadsg_pre; [apply Hpre0; exact Em|].
+    eapply leadsg_app with (T1 := [a]) (Cx := []) (Sf1 := stkf cntd lazy (-1) 0 (pos s) ++ S) (M1 := M); [|reflexivity|].
+    + apply (Hiter f s (-1) 0 res Hsem Hst Hside ([a] ++ T) S C M Hka Hr).
+    + intros np T' t HT. cbn [app] in HT. injection HT as <- <-. rewrite bkr_pos by exact Ha0.
+      eapply leadsg_fail; [exact HT3|]. rewrite HT3. eapply Hback. exact Hw3.
+  - apply Z.eqb_neq in Em. eapply leadsg_pre; [apply Hpre1; exact Em|].
+    eapply leadsg_app with (T1 := [a]) (Cx := []) (Sf1 := stk cntd (pos s) (1 - m) ++ S) (M1 := M); [|reflexivity|].
+    + apply (cc_again f r lazy limit cntd lbody ltest exit tbl Hr_ok Hsr Hcb Hlt Hext f (Hiter f)
+               s (1 - m) res Hsem Hst Hside ([a] ++ T) S C M Hka Hr).
+    + intros np T' t HT. cbn [app] in HT. injection HT as <- <-. rewrite bkr_pos by exact Ha0.
+      eapply leadsg_fail; [exact HT3|]. rewrite HT3.
+      rewrite <- (stkf_eq cntd lazy (pos s) (1 - m) 0) by (destruct Hst as [Hp _]; lia).
+      eapply Hback. exact Hw3.
+Qed.
+
+Lemma cc_sem_loop f lazy o m n r s :
+  sem e (S f) (NLoop lazy o m n r) s =
+  (if m =? 0 then iter f (sem e f r) lazy (if n =? INF then INF else n - m) s (-1) 0
+   else bindr (sem e f r s) (fun s' => iter f (sem e f r) lazy (if n =? INF then INF else n - m) s' (pos s) (1 - m))).
+Proof. reflexivity. Qed.
+
+Lemma cc_loop f lazy o m n r : Z.of_nat f <= INF -> ok_node f r -> supported r = true -> 0 <= m -> n <= INF ->
+  ok_node (S f) (NLoop lazy o m n r).
+Proof.
+  intros Hf Hr_ok Hsr Hm Hn s res Hsem Hst a tbl T S C M Hc Hex Hk Hr.
+  rewrite cc_sem_loop in Hsem.
+  set (limit := if n =? INF then INF else n - m) in *.
+  cbn [emit csize] in Hc, Hex |- *. cbv zeta in Hc.
+  destruct (counted m n) eqn:Ec; destruct (m =? 0) eqn:Em.
+  - (* Nullcount 0 ; Goto ltest ; body ; Branchcount *)
+    change (zlen [Nullcount; 0]) with 2 in Hc.
+    pose proof (emit_length cfg0 r (a + 2 + 2) tbl) as Lr.
+    destruct (emit cfg0 r (a + 2 + 2) tbl) as [cr t1] eqn:Er. cbn [fst] in Lr, Hc. rewrite ?Lr in Hc.
+    cbn [app] in Hc.
+    apply has_code_cons in Hc. destruct Hc as [H0 Hc]. apply has_code_cons in Hc. destruct Hc as [H1 Hc].
+    apply has_code_cons in Hc. destruct Hc as [Hg0 Hc]. apply has_code_cons in Hc. destruct Hc as [Hg1 Hc].
+    apply has_code_app in Hc. destruct Hc as [Hcr Hc]. rewrite Lr in Hc.
+    apply has_code_cons in Hc. destruct Hc as [Ht0 Hc]. apply has_code_cons in Hc. destruct Hc as [Ht1 Hc].
+    apply has_code_cons in Hc. destruct Hc as [Ht2 _].
+    replace (a + 1 + 1 + 1 + 1) with (a + 2 + 2) in * by lia.
+    replace (a + 1 + 1) with (a + 2) in * by lia.
+    set (lbody := a + 2 + 2) in *. set (ltest := lbody + csize cfg0 r) in *.
+    replace (ltest + 1 + 1) with (ltest + 2) in * by lia.
+    replace (a + (2 + 2 + csize cfg0 r + 3)) with (ltest + 3) in * by (unfold ltest, lbody; lia).
+    pose proof (code_at_nonneg p _ _ H0) as Ha0.
+    assert (Hlt0 : 0 < ltest) by (unfold ltest, lbody; pose proof (emit_length cfg0 r 0 []); pose proof (zlen_nonneg (fst (emit cfg0 r 0 []))); lia).
+    assert (Hexb : code_ex lbody) by (eapply cc_code_ex_start; [exact Hcr|]; rewrite Lr; eexists; exact Ht0).
+    apply Z.eqb_eq in Em. subst m.
+    assert (Hiter : forall fi, iter_ok_at f r lazy limit true ltest (ltest + 3) fi).
+    { destruct lazy.
+      - eapply cc_iter_lbc with (lbody := lbody) (tbl := tbl); try eassumption; try reflexivity;
+          try (rewrite Er; exact Hcr); try exact Ht0.
+      - eapply cc_iter_bc with (lbody := lbody) (tbl := tbl); try eassumption; try reflexivity;
+          try (rewrite Er; exact Hcr); try exact Ht0. }
+    apply (cc_loop_core f r lazy limit true 0 a lbody ltest (ltest + 3) tbl Hr_ok Hsr); try assumption.
+    + rewrite Er. exact Hcr.
+    + reflexivity.
+    + eexists; exact Ht0.
+    + congruence.
+    + intros Hx; discriminate Hx.
+    + intros _ t T0 S0 C0 M0. cbn [stk app].
+      eapply rsteps_trans; [eapply rs_nullcount; try exact tc_nonneg; eassumption|].
+      eapply rs_goto; try exact tc_nonneg; eassumption.
+    + intros Hx. congruence.
+    + intros t np T' mk ct tt S0 C0 M0 w3 Hw3. cbn [stkf app].
+      eapply rs_count_back; try exact tc_nonneg; try eassumption. right. reflexivity.
+  - (* Setcount (1-m) ; body ; Branchcount *)
+    change (zlen [Setcount; 1 - m]) with 2 in Hc.
+    pose proof (emit_length cfg0 r (a + 2 + 0) tbl) as Lr.
+    destruct (emit cfg0 r (a + 2 + 0) tbl) as [cr t1] eqn:Er. cbn [fst] in Lr, Hc. rewrite ?Lr in Hc.
+    cbn [app] in Hc.
+    apply has_code_cons in Hc. destruct Hc as [H0 Hc]. apply has_code_cons in Hc. destruct Hc as [H1 Hc].
+    apply has_code_app in Hc. destruct Hc as [Hcr Hc]. rewrite Lr in Hc.
+    apply has_code_cons in Hc. destruct Hc as [Ht0 Hc]. apply has_code_cons in Hc. destruct Hc as [Ht1 Hc].
+    apply has_code_cons in Hc. destruct Hc as [Ht2 _].
+    replace (a + 1 + 1) with (a + 2) in * by lia. replace (a + 2 + 0) with (a + 2) in * by lia.
+    set (lbody := a + 2) in *. set (ltest := lbody + csize cfg0 r) in *.
+    replace (ltest + 1 + 1) with (ltest + 2) in * by lia.
+    replace (a + (2 + 0 + csize cfg0 r + 3)) with (ltest + 3) in * by (unfold ltest, lbody; lia).
+    pose proof (code_at_nonneg p _ _ H0) as Ha0.
+    assert (Hlt0 : 0 < ltest) by (unfold ltest, lbody; pose proof (emit_length cfg0 r 0 []); pose proof (zlen_nonneg (fst (emit cfg0 r 0 []))); lia).
+    assert (Hexb : code_ex lbody) by (eapply cc_code_ex_start; [exact Hcr|]; rewrite Lr; eexists; exact Ht0).
+    apply Z.eqb_neq in Em.
+    assert (Hiter : forall fi, iter_ok_at f r lazy limit true ltest (ltest + 3) fi).
+    { destruct lazy.
+      - eapply cc_iter_lbc with (lbody := lbody) (tbl := tbl); try eassumption; try reflexivity;
+          try (rewrite Er; exact Hcr); try exact Ht0.
+      - eapply cc_iter_bc with (lbody := lbody) (tbl := tbl); try eassumption; try reflexivity;
+          try (rewrite Er; exact Hcr); try exact Ht0. }
+    replace (m =? 0) with false in Hsem by lia.
+    apply (cc_loop_core f r lazy limit true m a lbody ltest (ltest + 3) tbl Hr_ok Hsr); try assumption.
+    + rewrite Er. exact Hcr.
+    + reflexivity.
+    + eexists; exact Ht0.
+    + congruence.
+    + intros Hx; discriminate Hx.
+    + intros Hx. congruence.
+    + intros _ t T0 S0 C0 M0. cbn [stk app]. destruct Hexb as [wb Hwb].
+      eapply rs_setcount; try exact tc_nonneg; eassumption.
+    + intros t np T' mk ct tt S0 C0 M0 w3 Hw3. cbn [stkf app].
+      eapply rs_count_back; try exact tc_nonneg; try eassumption. left. reflexivity.
+    + replace (m =? 0) with false by lia. exact Hsem.
+  - (* Nullmark ; Goto ltest ; body ; Branchmark *)
+    change (zlen [Nullmark]) with 1 in Hc.
+    pose proof (emit_length cfg0 r (a + 1 + 2) tbl) as Lr.
+    destruct (emit cfg0 r (a + 1 + 2) tbl) as [cr t1] eqn:Er. cbn [fst] in Lr, Hc. rewrite ?Lr in Hc.
+    cbn [app] in Hc.
+    apply has_code_cons in Hc. destruct Hc as [H0 Hc].
+    apply has_code_cons in Hc. destruct Hc as [Hg0 Hc]. apply has_code_cons in Hc. destruct Hc as [Hg1 Hc].
+    apply has_code_app in Hc. destruct Hc as [Hcr Hc]. rewrite Lr in Hc.
+    apply has_code_cons in Hc. destruct Hc as [Ht0 Hc]. apply has_code_cons in Hc. destruct Hc as [Ht1 _].
+    replace (a + 1 + 1 + 1) with (a + 1 + 2) in * by lia.
+    set (lbody := a + 1 + 2) in *. set (ltest := lbody + csize cfg0 r) in *.
+    replace (a + (1 + 2 + csize cfg0 r + 2)) with (ltest + 2) in * by (unfold ltest, lbody; lia).
+    pose proof (code_at_nonneg p _ _ H0) as Ha0.
+    assert (Hlt0 : 0 < ltest) by (unfold ltest, lbody; pose proof (emit_length cfg0 r 0 []); pose proof (zlen_nonneg (fst (emit cfg0 r 0 []))); lia).
+    assert (Hexb : code_ex lbody) by (eapply cc_code_ex_start; [exact Hcr|]; rewrite Lr; eexists; exact Ht0).
+    apply Z.eqb_eq in Em. subst m.
+    unfold counted in Ec. apply orb_false_elim in Ec. destruct Ec as [En Em1].
+    assert (Hlim : limit = INF) by (unfold limit; replace (n =? INF) with true by lia; reflexivity).
+    rewrite Hlim in *.
+    assert (Hiter : forall fi, iter_ok_at f r lazy INF false ltest (ltest + 2) fi).
+    { destruct lazy.
+      - eapply cc_iter_lbm with (lbody := lbody) (tbl := tbl); try eassumption; try reflexivity;
+          try (rewrite Er; exact Hcr); try exact Ht0.
+      - eapply cc_iter_bm with (lbody := lbody) (tbl := tbl); try eassumption; try reflexivity;
+          try (rewrite Er; exact Hcr); try exact Ht0. }
+    apply (cc_loop_core f r lazy INF false 0 a lbody ltest (ltest + 2) tbl Hr_ok Hsr); try assumption.
+    + rewrite Er. exact Hcr.
+    + reflexivity.
+    + eexists; exact Ht0.
+    + congruence.
+    + intros _. cbn. repeat split; lia.
+    + intros _ t T0 S0 C0 M0. cbn [stk app].
+      eapply rsteps_trans; [eapply rs_nullmark; try exact tc_nonneg; eassumption|].
+      eapply rs_goto; try exact tc_nonneg; eassumption.
+    + intros Hx. congruence.
+    + intros t np T' mk ct tt S0 C0 M0 w3 Hw3. cbn [stkf app].
+      eapply rs_mark_back; try exact tc_nonneg; try eassumption. right. reflexivity.
+  - (* Setmark ; body ; Branchmark  (m = 1) *)
+    change (zlen [Setmark]) with 1 in Hc.
+    pose proof (emit_length cfg0 r (a + 1 + 0) tbl) as Lr.
+    destruct (emit cfg0 r (a + 1 + 0) tbl) as [cr t1] eqn:Er. cbn [fst] in Lr, Hc. rewrite ?Lr in Hc.
+    cbn [app] in Hc.
+    apply has_code_cons in Hc. destruct Hc as [H0 Hc].
+    apply has_code_app in Hc. destruct Hc as [Hcr Hc]. rewrite Lr in Hc.
+    apply has_code_cons in Hc. destruct Hc as [Ht0 Hc]. apply has_code_cons in Hc. destruct Hc as [Ht1 _].
+    replace (a + 1 + 0) with (a + 1) in * by lia.
+    set (lbody := a + 1) in *. set (ltest := lbody + csize cfg0 r) in *.
+    replace (a + (1 + 0 + csize cfg0 r + 2)) with (ltest + 2) in * by (unfold ltest, lbody; lia).
+    pose proof (code_at_nonneg p _ _ H0) as Ha0.
+    assert (Hlt0 : 0 < ltest) by (unfold ltest, lbody; pose proof (emit_length cfg0 r 0 []); pose proof (zlen_nonneg (fst (emit cfg0 r 0 []))); lia).
+    assert (Hexb : code_ex lbody) by (eapply cc_code_ex_start; [exact Hcr|]; rewrite Lr; eexists; exact Ht0).
+    apply Z.eqb_neq in Em.
+    unfold counted in Ec. apply orb_false_elim in Ec. destruct Ec as [En Em1].
+    assert (Hm1 : m = 1) by lia. subst m.
+    assert (Hlim : limit = INF) by (unfold limit; replace (n =? INF) with true by lia; reflexivity).
+    rewrite Hlim in *.
+    assert (Hiter : forall fi, iter_ok_at f r lazy INF false ltest (ltest + 2) fi).
+    { destruct lazy.
+      - eapply cc_iter_lbm with (lbody := lbody) (tbl := tbl); try eassumption; try reflexivity;
+          try (rewrite Er; exact Hcr); try exact Ht0.
+      - eapply cc_iter_bm with (lbody := lbody) (tbl := tbl); try eassumption; try reflexivity;
+          try (rewrite Er; exact Hcr); try exact Ht0. }
+    apply (cc_loop_core f r lazy INF false 1 a lbody ltest (ltest + 2) tbl Hr_ok Hsr); try assumption.
+    + rewrite Er. exact Hcr.
+    + reflexivity.
+    + eexists; exact Ht0.
+    + congruence.
+    + intros _. cbn. repeat split; lia.
+    + intros Hx. discriminate Hx.
+    + intros _ t T0 S0 C0 M0. cbn [stk app]. destruct Hexb as [wb Hwb].
+      eapply rs_setmark; try exact tc_nonneg; eassumption.
+    + intros t np T' mk ct tt S0 C0 M0 w3 Hw3. cbn [stkf app].
+      eapply rs_mark_back; try exact tc_nonneg; try eassumption. left. reflexivity.
+Qed.
+
 End CC.
